@@ -37,6 +37,10 @@ def diff_to_edits(rng, before: dict, after: dict, in_place_bias: float):
     return eds
 
 
+def model_files_recursive(cur):
+    return sorted(p for p in cur if p.startswith("/w/pkg/") and p.endswith((".yml", ".yaml")) and not p.endswith("/_package.yml"))
+
+
 def make_case(seed, i):
     rng = M.derive(seed, "c20", i)
     cfg = M.GenConfig.swarm(rng.fork("cfg"))
@@ -49,6 +53,16 @@ def make_case(seed, i):
     has_versions = rng.chance(0.25)
     if has_versions:
         pkg = E.with_versions(pkg, rng.fork("v"), rng.randint(1, 2), partial=rng.chance(0.5))
+    # layout: yardl reads model files in sub-directories of a package directory too (ParseYamlInDir walks the tree),
+    # so a share of the packages keep one model file of the main or of a referenced package below a sub-directory
+    lr = rng.fork("layout")
+    subdir_file = None
+    if lr.chance(0.3):
+        tgt = lr.choice(pkg.all_packages())
+        fn = lr.choice(sorted(tgt.files))
+        sub = lr.choice(["sub", "shared/types"])
+        tgt.files[sub + "/" + fn] = tgt.files.pop(fn)
+        subdir_file = "%s/%s/%s" % (tgt.dirname, sub, fn)
     state = pkg
     files0 = M.render_tree(state, "/w")
     cur = dict(files0)
@@ -122,7 +136,7 @@ def make_case(seed, i):
                 state.targets[t] = dict(state.targets[t], generateNDJson=not cur_v)
             log.append("manifest: " + op)
         elif kind == "break_repair":
-            mfs = E.model_files(cur, "/w/pkg")
+            mfs = model_files_recursive(cur)
             if mfs:
                 p = r.choice(mfs)
                 broken = cur[p] + "\nOops: !record\n  fields: [\n"
@@ -131,7 +145,7 @@ def make_case(seed, i):
                 log.append("break and repair " + p)
             continue
         elif kind == "touch":
-            mfs = E.model_files(cur, "/w/pkg")
+            mfs = model_files_recursive(cur)
             if mfs:
                 p = r.choice(mfs)
                 edits.append({"kind": "write", "path": p, "data": cur[p], "steps": r.randint(1, 3)})
@@ -149,7 +163,7 @@ def make_case(seed, i):
                 cur[ed["path"]] = ed["data"]
     end_invalid = rng.chance(0.12)
     if end_invalid:
-        mfs = E.model_files(cur, "/w/pkg")
+        mfs = model_files_recursive(cur)
         p = rng.choice(mfs)
         edits.append({"kind": "write", "path": p, "data": cur[p] + "\nOops: !record\n  fields: [\n", "steps": 1})
         log.append("final state invalid")
@@ -176,7 +190,7 @@ def make_case(seed, i):
     doc = {"files": files0, "cwd": "/w/pkg", "edits": edits, "sched": sched, "faults": faults,
            "mapseed": rng.next() % (1 << 31) + 1, "seed": seed,
            "case": {"i": i, "targets": targets, "imports": len(pkg.imports), "versions": len(pkg.versions), "edit_log": log,
-                    "n_edit_ops": len(edits), "ends_invalid": end_invalid}}
+                    "n_edit_ops": len(edits), "ends_invalid": end_invalid, "model_file_in_subdirectory": subdir_file}}
     return doc
 
 
